@@ -599,10 +599,15 @@ def inline_helper(src: str, target: Item, helper: Item):
             q = end
             while q < hi and m[q].isspace():
                 q += 1
-            if q >= hi or m[q] != '?':
-                raise ScanError('helper %s uses `?` but a call site is not written `%s(..)?`' % (helper.name, helper.name))
-            end = q + 1
-            inner = tail_ok[0] + ' ' + (tail_ok[1] if tail_ok[1].strip() else '()')
+            if q < hi and m[q] == '?':
+                end = q + 1
+                inner = tail_ok[0] + ' ' + (tail_ok[1] if tail_ok[1].strip() else '()')
+            elif (q >= hi or (q >= hi - 1 and m[q] == '}')) and ret_type(helper) == ret_type(target):
+                # the call is the caller's tail expression and both return the very same type: the helper's text, `?` and final
+                # `Ok(..)` included, does in the caller what it did in the helper
+                inner = body
+            else:
+                raise ScanError('helper %s uses `?` but a call site is neither `%s(..)?` nor the caller\'s tail expression' % (helper.name, helper.name))
         else:
             inner = body
         block = '{ ' + ''.join('let %s%s: %s = %s; ' % (mu, nm, ty, a) for (mu, nm, ty), a in zip(binds, args)) + '{' + inner + '} }'
